@@ -33,6 +33,8 @@ def programs():
     units["wfcb[submit-fails-once]"] = ("wfcb", [T({"k": "wfcb", "submit": {"fail": 1}, "retry": {"table": [1, "no"]}})])
     units["invoke"] = ("invoke", [T({"k": "invoke", "fn": "target-fn", "payload": {"x": [1, "a", None]}})])
     units["invoke[timeout3]"] = ("invoke", [T({"k": "invoke", "fn": "target-fn", "payload": "p", "timeout": 3})])
+    # only the payload serializer is configured: the result is still decoded with the default one
+    units["invoke[payload-serdes-only]"] = ("invoke", [T({"k": "invoke", "fn": "target-fn", "payload": {"k": 1}, "serdes_payload": "prefix"})])
     units["invoke[tenant]"] = ("invoke", [T({"k": "invoke", "fn": "other-fn", "payload": 7, "tenant": "t-1"})])
     for name, (kind, seq) in units.items():
         tail = [{"k": "step", "fn": {"ret": "after"}}]
@@ -118,6 +120,8 @@ def judge(d, _=None):
         if starts:
             u = starts[0]["u"]
             want_payload = json.dumps(_dec(op.get("payload")))
+            if op.get("serdes_payload") == "prefix":
+                want_payload = "PFX" + want_payload
             if u.get("Payload") != want_payload:
                 V(out, "C14", "invoke-payload-not-the-serialized-input",
                   f"{d.program['name']}: START carried payload {u.get('Payload')!r}, expected {want_payload!r}")
